@@ -687,6 +687,11 @@ pub fn shard_main(cases: &[(&str, fn(&mut GridCtx))]) {
         for (prop, key, detail, replay) in &ctx.found {
             println!("FOUND property={} key={} :: {} :: REPLAY {}", prop, key, detail.replace('\n', " "), replay);
         }
+        // two of the cases this shard actually evaluated, for the evidence file
+        for (name, _) in cases.iter().filter(|(n, _)| only_case.as_ref().map_or(true, |c| c == n)).take(2) {
+            let wi = ctx.worlds.len() / 2;
+            println!("SAMPLE {{\"case\":{},\"world_index\":{},\"world_history\":{:?},\"world_ops\":{:?}}}", mccore::util::json_str(name), wi, ctx.worlds[wi], ctx.worlds[wi].iter().map(|&o| format!("{:?}", ctx.ops[o as usize])).collect::<Vec<_>>());
+        }
         let s = &ctx.stats;
         println!(
             "STATS {{\"worlds\":{},\"instantiations\":{},\"evaluations\":{},\"rows_checked\":{},\"nonempty_results\":{},\"write_readbacks\":{},\"entry_queries\":{},\"par_evaluations\":{}}}",
